@@ -157,6 +157,41 @@ func init() {
 			panic(err)
 		}
 	}
+	// What the gateway's binary links (above) is not what the backends run:
+	// they have been redeployed with a newer sim/users.proto, in which User has
+	// one more field, and with the files that import it built against that one.
+	// The descriptors of a method discovered by reflection are the backend's -
+	// for the service's own file and for everything it imports.
+	users.MessageType[0].Field = append(users.MessageType[0].Field,
+		&descriptorpb.FieldDescriptorProto{Name: str("email"), JsonName: str("email"), Number: i32(3), Label: lbl, Type: tStr})
+	for _, fdp := range []*descriptorpb.FileDescriptorProto{users, orders, bad} {
+		fd, err := protodesc.NewFile(fdp, chainResolver{simBackendFiles, protoregistry.GlobalFiles})
+		if err != nil {
+			panic(err)
+		}
+		if err := simBackendFiles.RegisterFile(fd); err != nil {
+			panic(err)
+		}
+	}
+}
+
+// simBackendFiles holds the backends' (newer) build of the synthetic files.
+var simBackendFiles = &protoregistry.Files{}
+
+type chainResolver struct{ first, then *protoregistry.Files }
+
+func (c chainResolver) FindFileByPath(path string) (protoreflect.FileDescriptor, error) {
+	if fd, err := c.first.FindFileByPath(path); err == nil {
+		return fd, nil
+	}
+	return c.then.FindFileByPath(path)
+}
+
+func (c chainResolver) FindDescriptorByName(name protoreflect.FullName) (protoreflect.Descriptor, error) {
+	if d, err := c.first.FindDescriptorByName(name); err == nil {
+		return d, nil
+	}
+	return c.then.FindDescriptorByName(name)
 }
 
 // schemaResolver answers reflection lookups with the version of the
@@ -167,7 +202,7 @@ func (r schemaResolver) FindFileByPath(path string) (protoreflect.FileDescriptor
 	if r.p.schemaVersion() == 2 && path == schemaV2File.Path() {
 		return schemaV2File, nil
 	}
-	return protoregistry.GlobalFiles.FindFileByPath(path)
+	return chainResolver{simBackendFiles, protoregistry.GlobalFiles}.FindFileByPath(path)
 }
 
 func (r schemaResolver) FindDescriptorByName(name protoreflect.FullName) (protoreflect.Descriptor, error) {
@@ -176,7 +211,7 @@ func (r schemaResolver) FindDescriptorByName(name protoreflect.FullName) (protor
 			return d, nil
 		}
 	}
-	return protoregistry.GlobalFiles.FindDescriptorByName(name)
+	return chainResolver{simBackendFiles, protoregistry.GlobalFiles}.FindDescriptorByName(name)
 }
 
 func (p *svcProvider) GetServiceInfo() map[string]grpc.ServiceInfo {
@@ -321,7 +356,7 @@ func (v *verboseReflection) ServerReflectionInfo(stream rpb.ServerReflection_Ser
 			}
 			resp.MessageResponse = &rpb.ServerReflectionResponse_ListServicesResponse{ListServicesResponse: &rpb.ListServiceResponse{Service: svcs}}
 		case *rpb.ServerReflectionRequest_FileContainingSymbol:
-			d, err := protoregistry.GlobalFiles.FindDescriptorByName(protoreflect.FullName(r.FileContainingSymbol))
+			d, err := (schemaResolver{v.provider}).FindDescriptorByName(protoreflect.FullName(r.FileContainingSymbol))
 			if err != nil {
 				fileResp(nil, err)
 			} else {
